@@ -908,6 +908,9 @@ class TestResult(unittest.TestResult):
         self._original_stdout = sys.stdout
         self._original_stderr = sys.stderr
         self._std_streams_buffered = False
+        # Errors may be reported although no test was started (class or
+        # module level fixtures run by a suite-like test).
+        self._start_time = time.time()
 
     def testSetUp(self):
         """A layer may define a setup method to be called before each
